@@ -8,7 +8,6 @@ spec/Trace_UdsLayoutReq.tla / Trace_UdsLayoutResp.tla.
 from __future__ import annotations
 
 import json
-import os
 import random
 import shutil
 import tempfile
@@ -275,7 +274,7 @@ def validate(module: str, traces: list[dict[str, Any]], sweeps: list[dict[str, A
     results: list[Any] = []
 
     def one(batch: dict[str, Any]) -> Any:
-        return tlc.validate_batch(module, f"{module}.cfg", batch, timeout=3000, env=JENV, workers=workers, heap="3g")
+        return tlc.validate_batch(module, f"{module}.cfg", batch, timeout=3000, env=JENV, workers=workers, heap="4g")
 
     with ThreadPoolExecutor(max_workers=jobs) as ex:
         for batch, res in zip(batches, ex.map(one, batches)):
@@ -305,7 +304,7 @@ def rand_big(rnd: random.Random, width: int) -> dict[str, Any]:
 
 def rand_bytes(rnd: random.Random, long_ok: bool) -> list[int]:
     r = rnd.random()
-    n = 0 if r < 0.1 else rnd.randint(1, 12) if r < 0.8 or not long_ok else rnd.choice([255, 256, 4093, 4095])
+    n = 0 if r < 0.1 else rnd.randint(1, 12) if r < 0.95 or not long_ok else rnd.choice([255, 256, 4093, 4095])
     return [rnd.randint(0, 255) for _ in range(n)]
 
 
@@ -390,7 +389,3 @@ def mutants(b: bytes, fmt_positions: tuple[int, ...] = (1, 2, 4)) -> list[bytes]
             m[i] ^= 1 << bit
             out.append(bytes(m))
     return out
-
-
-def env_bool(name: str) -> bool:
-    return os.environ.get(name, "") not in ("", "0")
